@@ -238,7 +238,7 @@ def gen_world(rng, tier):
                             "na_mode": "none",
                             # hashable cells first: the failure happens half-way through a group
                             "cols": {"x": {"dtype": "object",
-                                           "values": ["a", "a"] + [[i, "u"] for i in range(n - 2)] + ["a"]
+                                           "values": (["a", "a"] + [[i, "u"] for i in range(n - 2)])
                                            if n > 2 else ["a", [0, "u"]]}},
                             "helpers": [{"name": "y0", "fn": r.choice(["mode", "count_unique", "max", "sum"]),
                                          "col": "x", "kwargs": {}, "id": hid[0], "dtype": "object"}]})
